@@ -25,6 +25,7 @@ import (
 	"path/filepath"
 	"reflect"
 	"runtime"
+	"sort"
 	"strconv"
 	"strings"
 	"sync"
@@ -1691,7 +1692,13 @@ func (t *Transaction) AssertedDatasets() []string {
 func (s *Store) ExecuteTransaction(transaction *Transaction) error {
 	datasets := make(map[string]*Dataset)
 
+	// lock the datasets in a fixed (name) order, so that concurrent transactions over the same datasets cannot deadlock
+	names := make([]string, 0, len(transaction.DatasetEntities))
 	for k := range transaction.DatasetEntities {
+		names = append(names, k)
+	}
+	sort.Strings(names)
+	for _, k := range names {
 		dataset, ok := s.datasets.Load(k)
 		if !ok {
 			return errors.New("no dataset " + k)
